@@ -34,7 +34,9 @@ var hardDocStrings = []string{"\ufffd", "\ufffdabc", "\u007f", "\u0080", "\u07ff
 	// text that looks like an escape sequence or a markup entity (serialisers that post-process their output)
 	"\\u003c", "\\u003e\\u0026", "a\\nb", "\\\\", "\\\"", "\\u0041", "&lt;&amp;", "\\x41", "%41", "\\'", "\\`", "<>&", "</script>", "\\u2028",
 	// a quote next to characters of two, three and four bytes (raw strings escape the quote: offsets counted in bytes vs runes)
-	"é'é", "''é", "𝄞'", "'\u0080", "ა'ა'", "'\uffff'"}
+	"é'é", "''é", "𝄞'", "'\u0080", "ა'ა'", "'\uffff'",
+	// the text of a surrogate escape (six plain characters)
+	"\\ud800", "\\udfff", "\\ud83d\\ude00", "C:\\users\\udd00\\x"}
 var hardDocNumbers = []float64{1e21, -1.5e300, 1e308, -1e308, 1.7976931348623157e308, 5e-324, 1e-7, 1.2345678901234568e-10, 6.02214076e23, 9007199254740992, 9007199254740993, 9223372036854775807, 9223372036854775808, 18446744073709551616,
 	0.1, 0.23333333333333334, 1.4000000000000001, 1e20, 123456789012345680000, 1e-6, 0.000001234, 999999999999999900000, -1e21, 4.35, 0.30000000000000004, 2.5e-8, 1e16, 12345678.9}
 
